@@ -32,6 +32,7 @@ type C11Case struct {
 	Cuts      []int           `json:"cuts,omitempty"`
 	AbortAt   int             `json:"abort_at"` // -1: the server sends everything, then closes
 	Receives  int             `json:"receives"`
+	API       string          `json:"api,omitempty"` // "" = Send + receive | "upgrade" = Upgrade + its receive (flags must be Upgrade) | "call" = Connection.Call (flags 0)
 	Transport string          `json:"transport"` // pipe | unix
 	Origin    string          `json:"origin,omitempty"`
 }
@@ -159,7 +160,47 @@ func execC11(c C11Case, bound time.Duration) (facts map[string]bool, err error) 
 		return facts, nil
 	}
 
-	receive, serr := cliConn.Send(ctx, c.Method, params, c.Flags)
+	var receive func(context.Context, interface{}) (uint64, error)
+	var serr error
+	switch c.API {
+	case "upgrade":
+		facts["api:upgrade"] = true
+		var up func(context.Context, interface{}) (uint64, varlink.ReadWriterContext, error)
+		up, serr = cliConn.Upgrade(ctx, c.Method, params)
+		if serr == nil {
+			receive = func(ctx context.Context, out interface{}) (uint64, error) {
+				fl, rwc, err := up(ctx, out)
+				if err == nil && rwc == nil {
+					return fl, fmt.Errorf("Upgrade's receive returned neither a connection nor an error")
+				}
+				return fl, err
+			}
+		}
+	case "call":
+		facts["api:call"] = true
+		// Call = Send + one receive; the request is written by the first (and only) receive of this wrapper
+		callDone := make(chan error, 1)
+		var callOut json.RawMessage
+		go func() { callDone <- cliConn.Call(ctx, c.Method, params, &callOut) }()
+		first := true
+		receive = func(ctx context.Context, out interface{}) (uint64, error) {
+			if !first {
+				return 0, io.ErrUnexpectedEOF // Call reads exactly one frame; later frames are not this API's business
+			}
+			first = false
+			select {
+			case err := <-callDone:
+				if p, ok := out.(*json.RawMessage); ok {
+					*p = callOut
+				}
+				return 0, err
+			case <-time.After(bound):
+				return 0, context.DeadlineExceeded
+			}
+		}
+	default:
+		receive, serr = cliConn.Send(ctx, c.Method, params, c.Flags)
+	}
 	if serr != nil {
 		return facts, fmt.Errorf("Send(%q, flags %#x) failed: %v", c.Method, c.Flags, serr)
 	}
@@ -220,7 +261,11 @@ func execC11(c C11Case, bound time.Duration) (facts map[string]bool, err error) 
 			}
 		}
 	}()
-	for i := 0; i < c.Receives; i++ {
+	nrecv := c.Receives
+	if c.API == "call" && nrecv > 1 {
+		nrecv = 1
+	}
+	for i := 0; i < nrecv; i++ {
 		var raw json.RawMessage
 		fl, rerr := receive(ctx, &raw)
 		pre := fmt.Sprintf("receive %d: ", i)
@@ -286,7 +331,7 @@ func execC11(c C11Case, bound time.Duration) (facts map[string]bool, err error) 
 			return facts, fmt.Errorf("%sreturned error %v (%T) for a well-formed reply frame: %s", pre, rerr, rerr, Preview(frames[i]))
 		}
 		facts["reply"] = true
-		if (fl&varlink.Continues != 0) != m.Continues {
+		if c.API != "call" && (fl&varlink.Continues != 0) != m.Continues {
 			return facts, fmt.Errorf("%sContinues flag = %v, the frame says %v: %s", pre, fl&varlink.Continues != 0, m.Continues, Preview(frames[i]))
 		}
 		if fl&^uint64(varlink.Continues) != 0 {
@@ -375,6 +420,12 @@ func genC11(t *rapid.T) C11Case {
 		varlink.More | varlink.Oneway, varlink.More | varlink.Upgrade, 15, 11}).Draw(t, "flags"))
 	c.Method = rapid.SampledFrom([]string{"x.y.M", "", "org.varlink.service.GetInfo", "é.\"\x00", "a"}).Draw(t, "method")
 	c.Reply = genC11Reply(t)
+	switch rapid.IntRange(0, 5).Draw(t, "api") {
+	case 0:
+		c.API, c.Flags = "upgrade", varlink.Upgrade
+	case 1:
+		c.API, c.Flags = "call", 0
+	}
 	frames, _ := SplitFrames(c.Reply)
 	c.Receives = len(frames) + rapid.IntRange(0, 1).Draw(t, "extra")
 	if rapid.IntRange(0, 2).Draw(t, "abort") == 0 && len(c.Reply) > 0 {
@@ -408,7 +459,7 @@ func sortStrings(s []string) {
 	}
 }
 
-var propC11 = Register(Prop[C11Case]{ID: "C11", Name: "C11", Check: checkC11})
+var propC11 = Register(Prop[C11Case]{ID: "C11", Name: "C11", Pending: true, Check: checkC11})
 
 func TestC11Rapid(t *testing.T) {
 	p := propC11
